@@ -7,8 +7,12 @@ dynamic-id sentence
 
 Theorems about `Model/ClientEntry.lean` (Python's argument binding along `Client(...)` / `Client.connect(...)` /
 `client_context(...)` → `_connect_helper(...)` → the fields of CONNECT_V2 and CONNECT), for **every** legal call of
-the entry points (any mix of positional and keyword actuals, any subset of the options, any values), and the
-identity theorems of the M2 life-cycle model (`Model/ClientLife.lean`) restated here so that the C06 check audits them.
+the entry points (any mix of positional and keyword actuals, any subset of the options, any values); the one
+value-dependent step on the way, `Client.__init__`'s auto-naming from the context's registered module ids
+(`storedName`): `explicit_name_is_kept`, `dynamic_client_keeps_name`, `default_name_is_registered`,
+`stored_name_meets_spec`, and both entry points against the Spec for every context table
+(`direct_call_meets_spec`, `context_call_meets_spec`; `registered_name_must_not_override` is the seeded change C06h
+as a counter-model); and the identity theorems of the M2 life-cycle model (`Model/ClientLife.lean`) restated here so that the C06 check audits them.
 What the *manager* does with the fields is M1 (`Props/C06.lean`).
 -/
 namespace Pyrtma.C06Entry
@@ -144,14 +148,96 @@ theorem context_keyword (i : Int) (n srv : String) (l a : Bool) :
   simp [payload, envs, bindArgs, bindFrom, argFor, lookup_nil, lookup_cons, prog, evalCall, evalExpr, allSome,
     frameFields, fieldVal, wroteOf]
 
-/-- … and the Spec the driver evaluates on the real frames holds of the model's frames -/
-theorem model_meets_spec (i : Int) (n srv : String) (l d a : Bool) :
-    ∀ w, (payload id prog (.direct ⟨[], [(.module_id, .i i), (.name, .s n)]⟩ ⟨[.s srv, .b l, .b d, .b a], []⟩)).bind wroteOf
-      = some w → honouredOk ⟨l, d, a, i, n⟩ w = true := by
-  intro w hw
-  rw [connect_positional] at hw
-  cases hw
-  simp [honouredOk, honoured]
+/-! ### the name on its way through `Client.__init__` (the context's registered module names) -/
+
+/-- a name the caller gives is the name the constructor keeps - whatever the module id, registered or not -/
+theorem explicit_name_is_kept (mids : Mids) (i : Int) (n : String) (h : n ≠ "") : storedName mids i n = n := by
+  simp [storedName, h]
+
+/-- a dynamic client (id 0) gets no default name -/
+theorem dynamic_client_keeps_name (mids : Mids) (n : String) : storedName mids 0 n = n := by
+  simp [storedName]
+
+/-- without a name, a static id gets a name the context registers for it, if there is one, else the empty name -/
+theorem default_name_is_registered (mids : Mids) (i : Int) :
+    (∃ p ∈ mids, p.2 = i ∧ storedName mids i "" = p.1) ∨
+    ((∀ p ∈ mids, p.2 ≠ i) ∨ i = 0) ∧ storedName mids i "" = "" := by
+  by_cases hi : i = 0
+  · right; exact ⟨Or.inr hi, by simp [storedName, hi]⟩
+  · cases hf : mids.find? (fun p => p.2 == i) with
+    | none =>
+      right
+      refine ⟨Or.inl ?_, by simp [storedName, hi, hf]⟩
+      intro p hp hpi
+      have := List.find?_eq_none.1 hf p hp
+      simp [hpi] at this
+    | some q =>
+      left
+      have hq := List.find?_some hf
+      have hm := List.mem_of_find?_eq_some hf
+      exact ⟨q, hm, by simpa using hq, by simp [storedName, hi, hf]⟩
+
+/-- the name rule of the Spec holds of what the constructor keeps, for every context table, id and name -/
+theorem stored_name_meets_spec (mids : Mids) (l d a : Bool) (i : Int) (n : String) :
+    nameOk mids ⟨l, d, a, i, n⟩ (storedName mids i n) = true := by
+  by_cases hn : n = ""
+  · subst hn
+    by_cases hi : i = 0
+    · simp [nameOk, storedName, hi]
+    · cases hf : mids.find? (fun p => p.2 == i) with
+      | none =>
+        have hnil : mids.filter (fun p => p.2 == i) = [] := by
+          rw [List.filter_eq_nil_iff]
+          intro x hx
+          exact List.find?_eq_none.1 hf x hx
+        simp [nameOk, storedName, hi, hf, hnil]
+      | some q =>
+        have hq := List.find?_some hf
+        have hm := List.mem_of_find?_eq_some hf
+        have hmem : q ∈ mids.filter (fun p => p.2 == i) := List.mem_filter.2 ⟨hm, hq⟩
+        cases hl : mids.filter (fun p => p.2 == i) with
+        | nil => simp [hl] at hmem
+        | cons x xs =>
+          have hany : (x :: xs).any (fun p => p.1 == q.1) = true := by
+            rw [← hl]; exact List.any_eq_true.2 ⟨q, hmem, by simp⟩
+          have hs : storedName mids i "" = q.1 := by simp [storedName, hi, hf]
+          rw [hs]
+          simp only [nameOk, hl]
+          simpa [hi] using hany
+  · simp [nameOk, storedName, hn]
+
+/-- **`Client(...)` + `connect(...)` meets the Spec**: for every legal pair of calls with well-typed option values, in
+every context table, the frames the model writes satisfy `honoured` for the options as the caller named them - the name
+included: an explicit name arrives unchanged, no name gives the registered default. -/
+theorem direct_call_meets_spec (mids : Mids) (c k : Actuals Val) (ce ke : Env Val)
+    (hc : bindArgs id prog.ctor c = some ce) (hk : bindArgs id prog.connect k = some ke)
+    (l d a : Bool) (i : Int) (n : String)
+    (hl : lookup ke .logger_status = some (.b l)) (hd : lookup ke .daemon_status = some (.b d))
+    (ha : lookup ke .allow_multiple = some (.b a)) (hi : lookup ce .module_id = some (.i i))
+    (hn : lookup ce .name = some (.s n)) :
+    ∃ w, wroteBy mids (.direct c k) = some w ∧ honouredOk mids ⟨l, d, a, i, n⟩ w = true := by
+  obtain ⟨l', d', a', i', n', hl', hd', ha', hi', hn', hp⟩ := direct_options_reach_fields c k ce ke hc hk
+  rw [hl] at hl'; rw [hd] at hd'; rw [ha] at ha'; rw [hi] at hi'; rw [hn] at hn'
+  cases hl'; cases hd'; cases ha'; cases hi'; cases hn'
+  refine ⟨initName mids ⟨⟨l, d, a, i, n⟩, l, d⟩, by simp [wroteBy, hp, wroteOf], ?_⟩
+  simp [honouredOk, honoured, initName, stored_name_meets_spec]
+
+/-- **`client_context(...)` meets the Spec** (its `daemon_status` is the documented `False`) -/
+theorem context_call_meets_spec (mids : Mids) (x : Actuals Val) (xe : Env Val) (hx : bindArgs id prog.ctx x = some xe)
+    (l a : Bool) (i : Int) (n : String)
+    (hl : lookup xe .logger_status = some (.b l)) (ha : lookup xe .allow_multiple = some (.b a))
+    (hi : lookup xe .module_id = some (.i i)) (hn : lookup xe .name = some (.s n)) :
+    ∃ w, wroteBy mids (.context x) = some w ∧ honouredOk mids ⟨l, false, a, i, n⟩ w = true := by
+  obtain ⟨l', a', i', n', hl', ha', hi', hn', hp⟩ := context_options_reach_fields x xe hx
+  rw [hl] at hl'; rw [ha] at ha'; rw [hi] at hi'; rw [hn] at hn'
+  cases hl'; cases ha'; cases hi'; cases hn'
+  refine ⟨initName mids ⟨⟨l, false, a, i, n⟩, l, false⟩, by simp [wroteBy, hp, wroteOf], ?_⟩
+  simp [honouredOk, honoured, initName, stored_name_meets_spec]
+
+/-- the seeded change C06h as a counter-model: a constructor that lets the registered name win over a name the caller
+gave does not meet the Spec -/
+theorem registered_name_must_not_override :
+    nameOk [("QUICK_LOGGER", 5)] ⟨false, false, false, 5, "my_recorder"⟩ "QUICK_LOGGER" = false := by decide
 
 /-- the defect C06-F1 as a counter-model: `client_context` forwarding positionally `(server_name, logger_status,
 allow_multiple)` puts `allow_multiple` into `daemon_status` -/
@@ -198,7 +284,14 @@ example : payload id prog (.direct ⟨[], []⟩ ⟨[.s "h", .b true, .b true, .b
   decide +kernel
 /-- the hypotheses of the general theorems are satisfiable -/
 example : ∃ ke, bindArgs id prog.connect ⟨[.s "h:1"], [(.daemon_status, .b true)]⟩ = some ke := ⟨_, rfl⟩
-example : honouredOk ⟨true, false, true, 12, "x"⟩ ⟨⟨true, true, false, 12, "x"⟩, true, false⟩ = false := by decide
+example : honouredOk [] ⟨true, false, true, 12, "x"⟩ ⟨⟨true, true, false, 12, "x"⟩, true, false⟩ = false := by decide
+/-- the name rule: explicit name on a registered id, default on a registered / unregistered / dynamic id -/
+example : wroteBy [("DATA_LOGGER", 4), ("QUICK_LOGGER", 5)] (.direct ⟨[.i 5], [(.name, .s "my_recorder")]⟩ ⟨[.s "h:1"], []⟩) =
+    some ⟨⟨false, false, false, 5, "my_recorder"⟩, false, false⟩ := by decide +kernel
+example : wroteBy [("DATA_LOGGER", 4), ("QUICK_LOGGER", 5)] (.context ⟨[.i 5], []⟩) =
+    some ⟨⟨false, false, false, 5, "QUICK_LOGGER"⟩, false, false⟩ := by decide +kernel
+example : storedName [("DATA_LOGGER", 4)] 12 "" = "" ∧ storedName [("A", 0)] 0 "" = "" := by decide
+example : nameOk [("A", 7), ("B", 7)] ⟨false, false, false, 7, ""⟩ "B" = true := by decide
 end Examples
 
 end Pyrtma.C06Entry
